@@ -31,17 +31,26 @@ class ExprCondModel(ExprModel):
         self.false_e = false_e
         
     def build(self, btor, ctx_width=-1):
-        cond_n = self.cond_e.build(btor)
-        true_n = self.true_e.build(btor)
-        false_n = self.false_e.build(btor)
+        from vsc.model.expr_bin_model import ExprBinModel
+        w = self.width()
+        if w > ctx_width:
+            ctx_width = w
+        cond_n = ExprModel.toBool(btor, self.cond_e.build(btor))
+        # Both branches take the width of the enclosing expression
+        true_n = ExprBinModel.extend(
+            self.true_e.build(btor, ctx_width), ctx_width, 
+            self.true_e.is_signed(), btor)
+        false_n = ExprBinModel.extend(
+            self.false_e.build(btor, ctx_width), ctx_width, 
+            self.false_e.is_signed(), btor)
         
         return btor.Cond(cond_n, true_n, false_n)
     
     def is_signed(self):
-        return self.true_e.signed or self.false_e.signed
+        return self.true_e.is_signed() and self.false_e.is_signed()
     
     def width(self):
-        return 0
+        return max(self.true_e.width(), self.false_e.width())
         
     def accept(self, visitor):
         visitor.visit_expr_cond(self)
